@@ -4,6 +4,9 @@ package sim
 
 import (
 	"fmt"
+	"strings"
+
+	"connectrpc.com/connect"
 
 	"github.com/streamingfast/bstream"
 	"github.com/streamingfast/substreams/pipeline/exec"
@@ -194,9 +197,31 @@ func fixHead(s *Scenario) {
 	}
 }
 
-type c01Checker struct{ prop string }
+// stratChecker is the oracle shared by the strategy-style properties (C01, C05, C07, C15, C16, C04):
+// every request that is expected to complete is compared with the sequential reference R0.
+type stratChecker struct {
+	prop     string
+	fileInv  bool // check every committed file against R0
+	monitors bool // C05 seam monitors + scheduler state coverage
+	fc       map[string]*fileChecker
+	states   map[string]bool
+}
 
-func (c *c01Checker) Setup(x *Exec) *Violation { return nil }
+func (c *stratChecker) Setup(x *Exec) *Violation {
+	c.fc = map[string]*fileChecker{}
+	if c.monitors {
+		x.Env.Mon = NewC05Monitor(x.S.First)
+		c.states = map[string]bool{}
+		x.Sim.OnStep = func(s *Sim, label string) {
+			if strings.HasPrefix(label, "loop|send|") {
+				if st := SchedulerState(); st != "" && len(c.states) < 400 {
+					c.states[st] = true
+				}
+			}
+		}
+	}
+	return nil
+}
 
 func checkCompleted(prop string, h *HistItem, res *RunResult) *Violation {
 	if res.Panic != "" {
@@ -211,36 +236,102 @@ func checkCompleted(prop string, h *HistItem, res *RunResult) *Violation {
 	return nil
 }
 
-func (c *c01Checker) AfterRequest(x *Exec, idx int, h *HistItem, res *RunResult) *Violation {
+func (c *stratChecker) AfterRequest(x *Exec, idx int, h *HistItem, res *RunResult) *Violation {
 	prop := c.prop
 	pkg := x.S.Pkg
 	if h.Pkg != nil {
 		pkg = h.Pkg
 	}
-	if v := checkCompleted(prop, h, res); v != nil {
-		return v
+	defer func() {
+		if x.Env.Mon != nil {
+			x.Env.Mon.ResetRequest()
+		}
+		curPP = nil
+	}()
+	if res.Panic != "" {
+		return viol(prop, "panic", "request panicked: %s", res.Panic)
 	}
-	if res.HasErr {
-		return viol(prop, "unexpected_error", "fault-free request %d failed: code=%s err=%v", idx, codeName(res.Code), res.Err)
+	interrupted := h.Req.CrashAtOp > 0 || h.Req.DisconnectAt > 0
+	if interrupted {
+		// a crashed or abandoned request owes nothing but what it delivered must still be right
+		if res.Outcome != OutDone {
+			if h.Req.CrashAtOp > 0 {
+				x.Probe("crashed_request_left_running")
+				return nil
+			}
+			return checkCompleted(prop, h, res)
+		}
+		x.Probe("interrupted_request")
+	} else if v := checkCompleted(prop, h, res); v != nil {
+		return v
 	}
 	ref, err := x.Ref(pkg, h.Req.Output, h.Req.SegSize)
 	if err != nil {
 		x.Rep.Infra = "reference run failed: " + err.Error()
 		return nil
 	}
+	// monitors first: they name the cause, the stream checks the consequence
+	if x.Env.Mon != nil && len(x.Env.Mon.Violations) > 0 {
+		v := x.Env.Mon.Violations[0]
+		cls := v
+		if i := strings.IndexByte(v, ':'); i > 0 {
+			cls = v[:i]
+		}
+		return viol(prop, cls, "%s", v)
+	}
+	if c.fileInv {
+		key := fmt.Sprintf("%p/%s", pkg, h.Req.Output)
+		fc := c.fc[key]
+		if fc == nil {
+			fc = newFileChecker(pkg, h.Req.Output, x.S.First)
+			c.fc[key] = fc
+		}
+		for _, other := range c.fc {
+			if other != fc {
+				other.next = len(x.Disk.Writes)
+			}
+		}
+		if cls, d := fc.Check(pkg, ref, x.Disk, res.Node); cls != "" {
+			return viol(prop, cls, "%s", d)
+		}
+	}
+	var failBlock *uint64
+	if ref.FailedAt != nil {
+		failBlock = ref.FailedAt
+	}
+	if res.HasErr && !interrupted {
+		if failBlock == nil || *failBlock >= h.Req.Stop && h.Req.Stop != 0 {
+			return viol(prop, "unexpected_error", "request %d failed although no module fails in its range: code=%s err=%v", idx, codeName(res.Code), res.Err)
+		}
+		if res.Code != connect.CodeInvalidArgument {
+			return viol(prop, "wrong_error_code", "module fails deterministically at block %d but the request ended with code=%s err=%v", *failBlock, codeName(res.Code), res.Err)
+		}
+		x.Probe("deterministic_failure_reported")
+	}
+	if !res.HasErr && !interrupted && failBlock != nil && (h.Req.Stop == 0 || *failBlock < h.Req.Stop) && *failBlock >= uint64(h.Req.Start) {
+		return viol(prop, "failure_swallowed", "module fails deterministically at block %d inside [%d,%d) but the request ended without error", *failBlock, h.Req.Start, h.Req.Stop)
+	}
 	if res.Session == nil {
+		if interrupted {
+			return nil
+		}
 		return viol(prop, "no_session", "no SessionInit message")
 	}
-	ex := StreamExpect{Start: res.Session.ResolvedStartBlock, Stop: h.Req.Stop, Handoff: res.Session.LinearHandoffBlock, Prod: h.Req.Prod}
-	if ex.Start != uint64(h.Req.Start) {
+	ex := StreamExpect{Start: res.Session.ResolvedStartBlock, Stop: h.Req.Stop, Handoff: res.Session.LinearHandoffBlock, Prod: h.Req.Prod, FailBlock: failBlock}
+	if ex.Start != uint64(h.Req.Start) && h.Req.Cursor == "" {
 		return viol(prop, "wrong_start", "resolved start %d, requested %d", ex.Start, h.Req.Start)
 	}
-	if v := CheckStream(prop, pkg, ref, res, ex, true); v != nil {
+	complete := !interrupted && !res.HasErr
+	if v := CheckStream(prop, pkg, ref, res, ex, complete); v != nil {
 		return v
+	}
+	if res.HasErr && !interrupted && failBlock != nil {
+		// correct prefix that stops before the failing block: in the linear part every block before it is there
+		x.Probe("prefix_checked_after_failure")
 	}
 	if res.Handoff != nil {
 		want := ref.StoresBefore(res.HandoffAt)
-		if want != nil {
+		if want != nil && (failBlock == nil || *failBlock >= res.HandoffAt) {
 			if d := CompareStores(pkg, res.Handoff, want, nil); d != "" {
 				return viol(prop, "handoff_store_mismatch", "stores handed to the linear phase at block %d differ from a sequential execution: %s", res.HandoffAt, d)
 			}
@@ -276,6 +367,9 @@ func (c *c01Checker) AfterRequest(x *Exec, idx int, h *HistItem, res *RunResult)
 		}
 		x.Probe("dev_snapshot_checked")
 	}
+	if c.monitors && complete && res.LeakedIO > 0 {
+		return viol(prop, "write_in_flight_at_return", "%d tier1 write(s) still in flight when the request returned", res.LeakedIO)
+	}
 	if h.Req.Prod && ex.Start < ex.Handoff {
 		x.Probe("prod_backfill")
 	}
@@ -289,7 +383,14 @@ func (c *c01Checker) AfterRequest(x *Exec, idx int, h *HistItem, res *RunResult)
 	return nil
 }
 
-func (c *c01Checker) Finish(x *Exec) *Violation { return nil }
+func (c *stratChecker) Finish(x *Exec) *Violation {
+	if c.monitors {
+		for st := range c.states {
+			x.Rep.States = append(x.Rep.States, fmt.Sprintf("%016x", H(0, st)))
+		}
+	}
+	return nil
+}
 
 func shapeOf(s *Scenario) string {
 	k := 0
